@@ -72,10 +72,14 @@ def mkSliceStep (ctx : Ctx) (a : Expr) (start stop step : Int) : Option Expr :=
   else none
 
 /-- `Array(elems)[index]` as a value (`ArrayProxy.as_value`): a `SwitchValue` over the index with one case per element
-an index of that width can reach, no default -/
+an index of that width could name; for a position the index's shape cannot represent (the upper half, for a signed
+index) `_normalize_patterns` drops the pattern and the case stays with no pattern at all — it never matches but still
+takes part in the result shape; no default -/
 def mkArrayFrom (ctx : Ctx) (idx : Expr) : Nat → List Expr → Expr
   | _, [] => Expr.nil
-  | k, e :: es => .ite idx [toBinary k (widthOf ctx idx)] e (mkArrayFrom ctx idx (k + 1) es)
+  | k, e :: es =>
+    .ite idx (if (shapeOf ctx idx).contains (k : Int) then [toBinary k (widthOf ctx idx)] else []) e
+      (mkArrayFrom ctx idx (k + 1) es)
 
 def mkArray (ctx : Ctx) (idx : Expr) (elems : List Expr) : Expr :=
   mkArrayFrom ctx idx 0 (elems.take (2 ^ widthOf ctx idx))
